@@ -101,6 +101,12 @@ func NewRun(prop, level, tier string) *Run {
 			seed = v
 		}
 	}
+	// replays of earlier runs of this check and tier are stale
+	if old, err := filepath.Glob(filepath.Join(VerifDir(), "replays", prop, tier+"-*.json")); err == nil && os.Getenv("VERIF_KEEP_REPLAYS") == "" && !isReplayRun() {
+		for _, f := range old {
+			_ = os.Remove(f)
+		}
+	}
 	return &Run{
 		Prop: prop, Tier: tier, Seed: seed, Level: level,
 		start:        time.Now(),
@@ -336,4 +342,13 @@ func Hash(parts ...string) string {
 		h.Write([]byte{0})
 	}
 	return hex.EncodeToString(h.Sum(nil)[:8])
+}
+
+func isReplayRun() bool {
+	for _, a := range os.Args {
+		if a == "--replay" {
+			return true
+		}
+	}
+	return false
 }
